@@ -15,7 +15,7 @@ from hypothesis import strategies as st
 from vp.api import Raised, Subcheck, must, require, sut
 
 PROPERTY = "C20"
-RULE = ("sort/sort_kv: lists, f8 and i8 arrays of length 0..400 (explicit draws up to 30, seed-expanded "
+RULE = ("sort/sort_kv: lists, f8 and i8 arrays and numpy.memmap files of length 0..400 (explicit draws up to 30, seed-expanded "
         "patterns random/few-distinct/sorted/reversed/all-equal/organ-pipe above), key arrays with ties and "
         "identifiable values. isplit: every (num 0..200, nchunks 1..60) enumerated in both tiers, plus "
         "drawn num up to 2**62, nchunks up to 3000, num as python/numpy integer. splitarray: nper 1..50 x "
@@ -84,7 +84,7 @@ def _num_el(kind):
 @st.composite
 def sort_inputs(draw):
     kind = draw(st.sampled_from(["f8", "i8"]))
-    container = draw(st.sampled_from(["list", "array"]))
+    container = draw(st.sampled_from(["list", "list", "array", "array", "memmap"]))
     if draw(st.integers(0, 2)) < 2:
         vals = draw(st.lists(_num_el(kind), min_size=0, max_size=draw(st.sampled_from([0, 1, 2, 3, 5, 12, 30]))))
         # JSON cannot carry inf: encode floats as hex strings
@@ -105,8 +105,13 @@ def _values(case):
     return list(case["data"])
 
 
-def _container(case, vals):
-    if case["container"] == "array":
+def _container(case, vals, ctx=None):
+    if case["container"] == "memmap" and len(vals) and ctx is not None:
+        # the use the module documents: sorting a memory-mapped array in place
+        mm = np.memmap(ctx.tmpfile("keys.dat"), dtype=case["kind"], mode="w+", shape=(len(vals),))
+        mm[:] = np.array(vals, dtype=case["kind"])
+        return mm
+    if case["container"] in ("array", "memmap"):
         return np.array(vals, dtype=case["kind"])
     return list(vals)
 
@@ -118,7 +123,7 @@ def _bits(kind, v):
 def check_sort(case, ctx):
     from esutil.algorithm import quicksort
     vals = _values(case)
-    data = _container(case, vals)
+    data = _container(case, vals, ctx)
     r = must(quicksort, data)
     require(r is None, "quicksort is in-place and must return None, got %r", type(r))
     out = data.tolist() if isinstance(data, np.ndarray) else data
@@ -169,7 +174,7 @@ def check_sort_kv(case, ctx):
         vvals = list(range(n))
     else:
         vvals = [i % 3 for i in range(n)]
-    keys = _container(case, kvals)
+    keys = _container(case, kvals, ctx)
     if case["vcontainer"] == "array":
         values = np.array(vvals, dtype="i8")
     elif case["vcontainer"] == "strlist":
@@ -479,7 +484,7 @@ def check_prange(case, ctx):
 
 def classify_prange(case):
     return ["nargs:%d" % len(case["args"]), "empty" if case["n"] == 0 else "nonempty",
-            "simple:%s" % case["opts"].get("simple", "default")] + (["nt:negative-step"] if len(case["args"]) == 3 and case["args"][2] < 0 else [])
+            "simple:%s" % case["opts"].get("simple", "default")] + (["negative-step"] if len(case["args"]) == 3 and case["args"][2] < 0 else [])
 
 
 # --------------------------------------------------------------------------- pmap
@@ -569,6 +574,6 @@ SUBCHECKS = [
              journal=False),
     Subcheck("progress", progress_cases, check_progress, classify_progress, quick=1500, thorough=60000, journal=False),
     Subcheck("prange", prange_cases, check_prange, classify_prange, quick=400, thorough=15000, journal=False),
-    Subcheck("pmap", pmap_cases, check_pmap, classify_pmap, quick=40, thorough=2000, journal=False,
+    Subcheck("pmap", pmap_cases, check_pmap, classify_pmap, quick=160, thorough=4000, journal=False,
              max_shrink_s=60.0),
 ]
